@@ -353,8 +353,14 @@ type c19LongCase struct {
 var c19Long = &vh.Prop[c19LongCase]{
 	ID: "C19", Name: "long-history", Slow: 20,
 	Gen: func(t *rapid.T) c19LongCase {
-		return c19LongCase{Shape: rapid.IntRange(0, 2).Draw(t, "shape"), Distinct: []int{40, 130, 260, 300, 520, 1100}[rapid.IntRange(0, 5).Draw(t, "distinct")],
+		c := c19LongCase{Shape: rapid.IntRange(0, 2).Draw(t, "shape"), Distinct: []int{40, 130, 260, 300, 520, 1100}[rapid.IntRange(0, 5).Draw(t, "distinct")],
 			Stride: rapid.IntRange(2, 9).Draw(t, "stride")}
+		// one history in five has an arbitrary length beyond those: a table-size threshold that is
+		// neither a power of two nor on the list (a cap of 2500 entries, say) is crossed as well
+		if rapid.IntRange(0, 4).Draw(t, "arbitrary-length") == 0 {
+			c.Distinct = rapid.IntRange(1101, vh.N(6000, 24000)).Draw(t, "distinct-arbitrary")
+		}
+		return c
 	},
 	Run: func(c c19LongCase, x *vh.Ctx) *vh.Failure {
 		it, _ := c19Shape(c.Shape)
@@ -377,10 +383,25 @@ var c19Long = &vh.Prop[c19LongCase]{
 		if f := c19DecodeSeq(cc, 0, vh.NewPlenc(vh.Cfg{}), &st); f != nil {
 			return f
 		}
-		x.Label(fmt.Sprintf("distinct-strings:%d", c.Distinct))
+		x.Label(fmt.Sprintf("distinct-strings:%s", c19Bucket(c.Distinct)))
 		x.NonTrivial()
 		return nil
 	},
+}
+
+// c19Bucket names the table-size class of a long history for the evidence labels.
+func c19Bucket(n int) string {
+	switch {
+	case n <= 1100:
+		return fmt.Sprint(n)
+	case n <= 2048:
+		return "1101-2048"
+	case n <= 4096:
+		return "2049-4096"
+	case n <= 8192:
+		return "4097-8192"
+	}
+	return ">8192"
 }
 
 func TestC19LongHistory(t *testing.T) { c19Long.Check(t, vh.N(40, 400)) }
